@@ -11,6 +11,8 @@ import (
 	"path/filepath"
 	"reflect"
 	"strings"
+	"sync"
+	"syscall"
 	"testing"
 
 	"gitee.com/xuesongtao/protoc-go-valid/file"
@@ -42,6 +44,41 @@ func newWorkDir() string {
 
 // runInjector processes the file (or its directory) once through the given entry.
 func runInjector(mode, dir, path string) (output string, err error) {
+	return runInjectorAs(false, mode, dir, path)
+}
+
+const nobodyID = 65534
+
+var unprivState struct {
+	once sync.Once
+	how  string // "" = not available, "native" = this process is not root, "setuid" = root that can drop to nobody
+}
+
+// unprivHow reports how the CLI can be run without root's exemption from permission bits.
+func unprivHow() string {
+	unprivState.once.Do(func() {
+		pgv := os.Getenv("VERIF_PGV")
+		if pgv == "" {
+			return
+		}
+		if os.Geteuid() != 0 {
+			unprivState.how = "native"
+			return
+		}
+		// probe: can the binary be executed as nobody (the path may lie below a private directory)?
+		cmd := exec.Command(pgv, "-f", "/nonexistent/verif-probe.go")
+		cmd.SysProcAttr = &syscall.SysProcAttr{Credential: &syscall.Credential{Uid: nobodyID, Gid: nobodyID}}
+		if err := cmd.Run(); err == nil {
+			unprivState.how = "setuid"
+		} else if _, isExit := err.(*exec.ExitError); isExit {
+			unprivState.how = "setuid" // it ran (and did not like the path)
+		}
+	})
+	return unprivState.how
+}
+
+// runInjectorAs: with unpriv the CLI runs as an unprivileged user (if this process is root, as nobody).
+func runInjectorAs(unpriv bool, mode, dir, path string) (output string, err error) {
 	switch mode {
 	case "lib":
 		var areas interface{}
@@ -76,6 +113,9 @@ func runInjector(mode, dir, path string) (output string, err error) {
 	default:
 		return "", fmt.Errorf("bad mode %s", mode)
 	}
+	if unpriv && unprivHow() == "setuid" {
+		cmd.SysProcAttr = &syscall.SysProcAttr{Credential: &syscall.Credential{Uid: nobodyID, Gid: nobodyID}}
+	}
 	var out bytes.Buffer
 	cmd.Stdout, cmd.Stderr = &out, &out
 	runErr := cmd.Run()
@@ -84,10 +124,15 @@ func runInjector(mode, dir, path string) (output string, err error) {
 		return o, fmt.Errorf("the CLI crashed: %s", tail(o, 600))
 	}
 	if runErr != nil {
-		return o, fmt.Errorf("the CLI exited with %v: %s", runErr, tail(o, 400))
+		return o, &exitError{fmt.Sprintf("the CLI exited with %v: %s", runErr, tail(o, 400))}
 	}
 	return o, nil
 }
+
+// exitError: the CLI ended with a non-zero status without the signature of a crash.
+type exitError struct{ msg string }
+
+func (e *exitError) Error() string { return e.msg }
 
 func tail(s string, n int) string {
 	if len(s) > n {
